@@ -562,6 +562,42 @@ func facts() map[string]any {
 	}
 	out["views_answers_not_copied"] = viewsShared
 
+	// --- send state: a batch reader's burst slot lies past the workers' range (`e.workers + idx`),
+	// and the engine allocates workers+len(pcs) senders
+	slotPast, sendersSized := false, false
+	if fn := srv.function("newUDPBatchReader"); fn != nil {
+		ast.Inspect(fn.Body, func(x ast.Node) bool {
+			if as, ok := x.(*ast.AssignStmt); ok && len(as.Lhs) == 1 && len(as.Rhs) == 1 {
+				if l, ok := as.Lhs[0].(*ast.SelectorExpr); ok && l.Sel.Name == "slot" {
+					if b, ok := as.Rhs[0].(*ast.BinaryExpr); ok && b.Op == token.ADD {
+						if xs, ok := b.X.(*ast.SelectorExpr); ok && xs.Sel.Name == "workers" {
+							slotPast = true
+						}
+					}
+				}
+			}
+			return true
+		})
+	}
+	if fn := srv.function("newUDPEngine"); fn != nil {
+		ast.Inspect(fn.Body, func(x ast.Node) bool {
+			if c, ok := x.(*ast.CallExpr); ok {
+				if id, ok := c.Fun.(*ast.Ident); ok && id.Name == "make" && len(c.Args) == 2 {
+					if at, ok := c.Args[0].(*ast.ArrayType); ok {
+						if el, ok := at.Elt.(*ast.Ident); ok && el.Name == "udpTXSender" {
+							if b, ok := c.Args[1].(*ast.BinaryExpr); ok && b.Op == token.ADD {
+								sendersSized = true
+							}
+						}
+					}
+				}
+			}
+			return true
+		})
+	}
+	out["reader_sender_slot_past_workers"] = slotPast
+	out["senders_sized_workers_plus_readers"] = sendersSized
+
 	// --- capacity pinning shapes
 	out["beginwire_pins_capacity"] = hasFullSliceExpr(mw.method("responseWriter", "BeginWire"), "need")
 	out["trypack_pins_capacity"] = hasFullSliceExpr(wr.function("TryPack"), "")
